@@ -11,7 +11,8 @@ import Mathlib.Algebra.BigOperators.Group.List.Basic
 2. `digest_sort_irrelevant`: any arrangement of the digest list that is sorted by the comparator of the code
    gives the same database (the model's protein-name tie-break is immaterial).
 3. `massOk_groupPeptides`: every element of the pre-merge vector — reversed decoys included — is
-   mass-consistent, so `comparator_off_duplicates` applies to the whole vector.
+   mass-consistent, so the identity determines the mass in the whole vector
+   (`pre_merge_mass_determined`).
 -/
 
 namespace Sage.C08
@@ -296,7 +297,7 @@ theorem db_canonical_sources (cfg : Cfg Rat) (t : List (C05.Seq × C05.Seq)) (db
   obtain ⟨gs, hg, _, s1, s2, s3, ent, cov, _⟩ := db_canonical cfg t db h
   obtain ⟨b1, b2⟩ := bridge cfg t gs hg
   refine ⟨s1, s2, s3, fun e he => ?_, fun c hc => ?_⟩
-  · obtain ⟨x1, x2, x3, _, _, x6, x7⟩ := ent e he
+  · obtain ⟨x1, x2, x3, _, _, ⟨x6, x7⟩, _⟩ := ent e he
     refine ⟨?_, fun a => ?_, ?_, ?_, ?_⟩
     · obtain ⟨p, hp, hk⟩ := x1
       obtain ⟨c, hc, hcore, _⟩ := (b1 p hp).1
@@ -580,12 +581,12 @@ theorem strictlyIncreasing_ext (l1 l2 : List Str) (h1 : strictlyIncreasing l1 = 
 theorem reorder_set_sub (l1 l2 : List (DbPep α)) (h12 : SubUpToProteinOrder l1 l2)
     (h21 : SubUpToProteinOrder l2 l1) : ∀ e1 ∈ reorder l1, e1 ∈ reorder l2 := by
   intro e1 he1
-  obtain ⟨x1, x2, x3, x4, ⟨x5, x5'⟩, ⟨x6, x6'⟩⟩ := (db_entries_exact l1).1 e1 he1
+  obtain ⟨x1, x2, x3, x4, ⟨x5, x5'⟩, ⟨x6, x6'⟩, ⟨x7, x7'⟩⟩ := (db_entries_exact l1).1 e1 he1
   obtain ⟨p1, hp1, hk1⟩ := x1
   obtain ⟨q1, hq1, hc1, _⟩ := h12 p1 hp1
   obtain ⟨e2, he2, hk2⟩ := (db_entries_exact l2).2 q1 hq1
   have hkey : keyOf e2 = keyOf e1 := by rw [hk2, keyOf_of_core hc1, hk1]
-  obtain ⟨_, y2, y3, y4, ⟨y5, y5'⟩, ⟨y6, y6'⟩⟩ := (db_entries_exact l2).1 e2 he2
+  obtain ⟨_, y2, y3, y4, ⟨y5, y5'⟩, ⟨y6, y6'⟩, ⟨y7, y7'⟩⟩ := (db_entries_exact l2).1 e2 he2
   -- transfer along the two inclusions
   have t12 : ∀ p ∈ l1, keyOf p = keyOf e1 → ∃ q ∈ l2, keyOf q = keyOf e2 ∧ q.core = p.core ∧ q.decoy = p.decoy ∧
       q.semi = p.semi ∧ q.mc = p.mc ∧ ∀ a, a ∈ q.proteins ↔ a ∈ p.proteins := by
@@ -600,7 +601,17 @@ theorem reorder_set_sub (l1 l2 : List (DbPep α)) (h12 : SubUpToProteinOrder l1 
   have heq : e1 = e2 := by
     have hkey' := hkey
     simp only [keyOf, Prod.mk.injEq] at hkey'
-    obtain ⟨k1, k2, k3, k4, k5⟩ := hkey'
+    obtain ⟨k2, k3, k4, k5⟩ := hkey'
+    have k1 : e2.core.mono = e1.core.mono := by
+      obtain ⟨p, hp, hk, hm⟩ := x7'
+      obtain ⟨q, hq, hk', c1, _⟩ := t12 p hp hk
+      obtain ⟨q', hq', hkq, hm'⟩ := y7'
+      obtain ⟨p', hp', hkp, c1', _⟩ := t21 q' hq' hkq
+      have a1 := y7 q hq hk'
+      have a2 := x7 p' hp' hkp
+      rw [c1, ← hm] at a1
+      rw [c1', ← hm'] at a2
+      exact le_antisymm a1 a2
     apply DbPep.ext'
     · rw [Bool.eq_iff_iff, x3, y3]
       constructor
@@ -653,19 +664,16 @@ of (form, decoy, semi, missed cleavages) with protein SETS: order, multiplicity 
 protein lists are immaterial. -/
 theorem reorder_set_congr (l1 l2 : List (DbPep α)) (h12 : SubUpToProteinOrder l1 l2)
     (h21 : SubUpToProteinOrder l2 l1) : reorder l1 = reorder l2 := by
-  have nd : ∀ l : List (DbPep α), l.Pairwise KeyLt → l.Nodup := by
-    intro l h
+  have nd : ∀ l : List (DbPep α), (reorder l).Nodup := by
+    intro l
     unfold List.Nodup
-    refine h.imp ?_
+    refine (reorder_keyNe l).imp ?_
     intro a b hab e
-    exact keyLt_ne hab (by rw [e])
-  apply List.Perm.eq_of_pairwise (le := KeyLt) _ (reorder_strict l1) (reorder_strict l2)
-    ((List.perm_ext_iff_of_nodup (nd _ (reorder_strict l1)) (nd _ (reorder_strict l2))).2
+    exact hab (by rw [e])
+  exact eq_of_perm_of_strict
+    ((List.perm_ext_iff_of_nodup (nd l1) (nd l2)).2
       (fun x => ⟨reorder_set_sub l1 l2 h12 h21 x, reorder_set_sub l2 l1 h21 h12 x⟩))
-  intro a b _ _ hab hba
-  exfalso
-  have := lawful_cmpK.lt_trans _ _ _ hab hba
-  rw [lawful_cmpK.refl] at this; cases this
+    (reorder_strict l1) (reorder_strict l2)
 
 end setcongr
 
@@ -829,17 +837,16 @@ theorem massOk_groupPeptides (cfg : Cfg Rat) (T : List Str) (g : Group) :
     · exact plain p hq
   · exact plain p hp
 
-/-- **C08.comparator_on_pre_merge_vector** — on the vector `Parameters::digest` hands to the sort, the
-comparator of the code coincides with the lexicographic key order on every pair with different keys (the only
-remaining hypothesis: no C-terminal modification of mass exactly 0). -/
-theorem comparator_on_pre_merge_vector (cfg : Cfg Rat) (gs : List Group) (ins : List Str) (a b : DbPep Rat)
-    (ha : a ∈ digestPeptides cfg gs ins) (hb : b ∈ digestPeptides cfg gs ins)
-    (za : a.core.cterm ≠ some 0) (zb : b.core.cterm ≠ some 0) (hne : keyOf a ≠ keyOf b) :
-    cmpActual a b = cmpKey a b := by
+/-- **C08.pre_merge_mass_determined** — in the vector ONE `Parameters::digest` hands to `reorder_peptides`
+(reversed decoys included) two forms with the same (sequence, modifications, nterm, cterm) have the same mass:
+inside one build the mass-free merge test of the repaired `reorder_peptides` merges exactly what the old
+mass-including test merged, and the minimum of the masses of a class is the mass of each of its members. -/
+theorem pre_merge_mass_determined (cfg : Cfg Rat) (gs : List Group) (ins : List Str) (a b : DbPep Rat)
+    (ha : a ∈ digestPeptides cfg gs ins) (hb : b ∈ digestPeptides cfg gs ins) (hk : keyOf a = keyOf b) :
+    a.core.mono = b.core.mono := by
   obtain ⟨g, _, hag⟩ := List.mem_flatMap.1 ha
   obtain ⟨g', _, hbg⟩ := List.mem_flatMap.1 hb
-  exact comparator_off_duplicates _ a b (massOk_groupPeptides cfg _ g a hag) (massOk_groupPeptides cfg _ g' b hbg)
-    za zb hne
+  exact single_build_mass_determined _ a b (massOk_groupPeptides cfg _ g a hag) (massOk_groupPeptides cfg _ g' b hbg) hk
 
 /-- non-vacuity: a reversed decoy is a different arrangement of residues and modifications with the same mass:
     `AC[+57]GK` (mass 434) reverses to `AGC[+57]K` -/
